@@ -107,6 +107,8 @@ pub struct Ctx<'p> {
     /// property the currently executing operation belongs to (for panics / hangs)
     pub cur_prop: &'static str,
     pub nontrivial: bool,
+    /// the run outgrew its memory budget (its arena slot) and was cut short; not a verdict
+    pub abandoned: bool,
 }
 
 impl<'p> Ctx<'p> {
@@ -125,6 +127,7 @@ impl<'p> Ctx<'p> {
             step: 0,
             cur_prop: "",
             nontrivial: false,
+            abandoned: false,
         }
     }
 
@@ -169,6 +172,12 @@ impl<'p> Ctx<'p> {
     ) -> R {
         self.evals += 1;
         if ok {
+            if alloc::overflowed() {
+                // memory budget of a simulated run (one arena slot) exceeded: the run continued
+                // reproducibly in its overflow slot up to here and is now cut short
+                self.abandoned = true;
+                return Err(Abort);
+            }
             return Ok(());
         }
         self.fail(prop, class, detail())
@@ -286,6 +295,10 @@ pub fn execute_plan(world: &dyn World, plan: &Plan, trace: bool) -> Outcome {
         rsdd::verif::arm(faults_to_hook_cfg(plan));
         let res = catch_unwind(AssertUnwindSafe(|| world.execute(plan, &mut ctx)));
         let report = rsdd::verif::disarm();
+        if ctx.abandoned {
+            ctx.count("run-cut-short-over-memory-budget", 1);
+            ctx.ev(3, &[1]);
+        }
         if res.is_err() {
             // a panic escaped rsdd (or the harness) during an operation
             let raw = PANIC_MSG
